@@ -201,6 +201,7 @@ pub fn derive_cfg(job: &Job) -> SimCfg {
         preexisting_dicts: r.chance(1, 3),
         big_docs: r.chance(1, 10),
         config_errors: false,
+        big_dict: Rng::derive(job.seed, "bigdict-cfg").chance(1, 3),
     };
     if job.prop == "C09" && r.chance(1, 8) {
         // an editor without workspace/configuration support: every pull is answered with an error
@@ -319,7 +320,25 @@ impl<'j> Sim<'j> {
         if cfg.gen_cfg.preexisting_dicts && cfg.gen_cfg.paths_at_start {
             // a user dictionary that exists before the server ever ran: hand-edited, CRLF line
             // ends, with or without a final newline
-            let words: Vec<String> = (0..rng_work.range(1, 3)).map(|_| rng_work.pick(&["kubectl", "harperls", "zxqv", "Ωmega", "naïvité"]).to_string()).collect();
+            let mut words: Vec<String> = (0..rng_work.range(1, 3)).map(|_| rng_work.pick(&["kubectl", "harperls", "zxqv", "Ωmega", "naïvité"]).to_string()).collect();
+            if cfg.gen_cfg.big_dict {
+                // filler words nobody types: long, distinct, a third of them with multi-byte letters
+                let mut br = Rng::derive(job.seed, "bigdict");
+                let n = br.range(800, 4000);
+                for i in 0..n {
+                    let mut w = String::from(*br.pick(&["zqx", "xkq", "vvz", "qxj"]));
+                    let mut v = i as u64 * 7919 + 13;
+                    for _ in 0..br.range(5, 9) {
+                        w.push((b'a' + (v % 26) as u8) as char);
+                        v /= 3;
+                        v += 11;
+                    }
+                    w.push_str(*br.pick(&["", "", "é", "ß", "日本", "ñx", "𝒜", "ö"]));
+                    if !words.contains(&w) {
+                        words.push(w);
+                    }
+                }
+            }
             let nl = if rng_work.chance(1, 3) { "\r\n" } else { "\n" };
             let mut content = words.join(nl);
             if rng_work.chance(2, 3) {
@@ -856,8 +875,11 @@ impl<'j> Sim<'j> {
             }
             if cut > 0 {
                 seam::as_harness(|| {
-                    if let Ok(mut f) = std::fs::OpenOptions::new().append(true).open(&g.path) {
-                        let _ = f.write_all(&data[..cut]);
+                    // through the descriptor the write was aimed at (the name may have moved on)
+                    if !fsim::land_prefix(g.id, cut) {
+                        if let Ok(mut f) = std::fs::OpenOptions::new().append(true).open(&g.path) {
+                            let _ = f.write_all(&data[..cut]);
+                        }
                     }
                 });
             }
